@@ -4,7 +4,11 @@ package main
 
 import (
 	"fmt"
+	"go/constant"
 	"go/token"
+	"go/types"
+	"reflect"
+	"sort"
 	"strings"
 
 	"golang.org/x/tools/go/ssa"
@@ -252,7 +256,10 @@ func headerLayout(c *Ctx, rule string) {
 	}
 	c.Ob(rule, rname+"/type-first", fc[0].Pos(), Term(fc[0].Arg(0)) == "data[0]" && Dominates(fc[0].Instr, ib[0].Instr), "the reader must take the type from the first byte before anything else")
 	c.Ob(rule, rname+"/attachments-delimiter", ib[0].Pos(), Term(ib[0].Arg(1)) == "45" && HasGuard(ib[0].Instr, `.*\.IsBinary\(\)==true`), "the attachment count must be read up to '-' (45) exactly for binary types; the writer emits <n>- exactly then")
-	c.Ob(rule, rname+"/attachments-before-namespace", atSt[0].Pos(), !func() bool { r, _ := CanReachAvoiding(rd, nsSt[0], func(in ssa.Instruction) bool { return in == atSt[0] }, nil); return r }(), "the reader takes the namespace before the attachment count, the writer emits the count first")
+	c.Ob(rule, rname+"/attachments-before-namespace", atSt[0].Pos(), !func() bool {
+		r, _ := CanReachAvoiding(rd, nsSt[0], func(in ssa.Instruction) bool { return in == atSt[0] }, nil)
+		return r
+	}(), "the reader takes the namespace before the attachment count, the writer emits the count first")
 	for _, s := range nsSt {
 		r, _ := CanReachAvoiding(rd, idSt[0], func(in ssa.Instruction) bool { return in == s }, nil)
 		c.Ob(rule, rname+"/namespace-before-id", s.Pos(), !r, "the reader takes the ack id before the namespace, the writer emits the namespace first")
@@ -281,6 +288,74 @@ func runC09(c *Ctx) {
 
 	c.Rule("C09-D2", "header layout agreement: the writer emits <type>[<n>-][<nsp>,][<id>]<json> — each optional field exactly under its own condition, independent of the others — and the reader consumes the same fields in the same order with the same delimiters", 30)
 	headerLayout(c, "C09-D2")
+
+	c.Rule("C09-D6", "the three value walkers agree on what they descend into: hasBinary (decides the packet type), deconstructValue (extracts the attachments) and reconstructValue (puts them back) "+
+		"compare the value kind and the slice element kind with the same sets of reflect.Kind constants — a kind one of them skips makes Encode announce no/fewer attachments than it extracts, or the decoder leave placeholders behind", 6)
+	{
+		type kinds struct{ outer, inner map[int64]bool }
+		kindsOf := func(fn *ssa.Function) kinds {
+			k := kinds{map[int64]bool{}, map[int64]bool{}}
+			for _, b := range fn.Blocks {
+				for _, in := range b.Instrs {
+					bo, ok := in.(*ssa.BinOp)
+					if !ok || (bo.Op != token.EQL && bo.Op != token.NEQ) {
+						continue
+					}
+					kc, isK := bo.Y.(*ssa.Const)
+					if !isK || kc.Value == nil || kc.Value.Kind() != constant.Int {
+						continue
+					}
+					if nt, ok := bo.X.Type().(*types.Named); !ok || nt.Obj().Name() != "Kind" || nt.Obj().Pkg() == nil || nt.Obj().Pkg().Path() != "reflect" {
+						continue
+					}
+					if strings.Contains(Term(bo.X), ".Type().Elem().Kind()") {
+						k.inner[kc.Int64()] = true
+					} else {
+						k.outer[kc.Int64()] = true
+					}
+				}
+			}
+			return k
+		}
+		show := func(m map[int64]bool) string {
+			var ks []int
+			for k := range m {
+				ks = append(ks, int(k))
+			}
+			sort.Ints(ks)
+			var out []string
+			for _, k := range ks {
+				out = append(out, reflect.Kind(k).String())
+			}
+			return "{" + strings.Join(out, ",") + "}"
+		}
+		same := func(a, b map[int64]bool) bool {
+			if len(a) != len(b) {
+				return false
+			}
+			for k := range a {
+				if !b[k] {
+					return false
+				}
+			}
+			return true
+		}
+		walkers := []struct{ label, short, name string }{
+			{"hasBinary", "jsonparser", "hasBinary"},
+			{"deconstructValue", "jsonparser", "Parser.deconstructValue"},
+			{"reconstructValue", "jsonparser", "reconstructor.reconstructValue"},
+		}
+		ref := kindsOf(p.Fn(walkers[1].short, walkers[1].name))
+		if len(ref.outer) < 4 || len(ref.inner) < 4 {
+			anchorFail("C09-D6: deconstructValue compares only %d value kinds and %d element kinds (kind switch not recognised)", len(ref.outer), len(ref.inner))
+		}
+		for _, w := range walkers {
+			fn := p.Fn(w.short, w.name)
+			k := kindsOf(fn)
+			c.Ob("C09-D6", "jsonparser."+w.label+"/value-kinds", fn.Pos(), same(k.outer, ref.outer), fmt.Sprintf("%s tests the value kind against %s, deconstructValue against %s", w.label, show(k.outer), show(ref.outer)))
+			c.Ob("C09-D6", "jsonparser."+w.label+"/element-kinds", fn.Pos(), same(k.inner, ref.inner), fmt.Sprintf("%s descends into slices whose element kind is in %s, deconstructValue into %s: values reachable only through the missing kind are not seen by one of the walkers", w.label, show(k.inner), show(ref.inner)))
+		}
+	}
 
 	c.Rule("C09-D5", "the ack id keeps its full uint64 range and base on both sides (FormatUint base 10 / ParseUint base 10, width 0 or 64); the frames Encode returns are freshly allocated (not scratch storage of the parser that a later Encode would overwrite)", 4)
 	{
